@@ -1,3 +1,255 @@
 // harnesses mounted as child module of agdb/src/db.rs
 #[allow(unused_imports)]
 use super::*;
+
+// =============================================================================
+// C15 (4) — the modifier / logic fold of `DbImpl::evaluate_conditions`.
+//
+// `evaluate_conditions` is a method of `DbImpl`; constructing a `DbImpl` is far
+// beyond CBMC (design probe: `DbMemory::with_data` alone > 10 min). The
+// condition kinds Distance, Edge, Node and Where-of-those never read `self`, so
+// the harness passes a reference to an UNINITIALISED `DbImpl<ArrStorage>`
+// (`MaybeUninit`, never read, never dropped). Covered: only these condition
+// kinds. NOT covered: EdgeCount*, Ids, KeyValue, Keys (they read the graph /
+// aliases / values of the database).
+//
+// Reference evaluator written from the documentation (queries.md "Truth
+// tables", where_.rs doc comments): start with Continue(true); per condition
+//   value  : Distance -> CountComparison::compare_distance (its own harness:
+//            c15_compare_distance_selects_and_prunes), Edge -> Continue(id < 0),
+//            Node -> Continue(0 < id), Where -> the nested list evaluated the
+//            same way ("collapsed into single condition")
+//   modifier: None -> unchanged; Not -> `!` (value flipped, kind kept);
+//            Beyond / NotBeyond -> "only controls traversal, does not affect
+//            element selection": the running value is kept, the condition
+//            contributes only a control kind — Beyond: Continue if the
+//            condition passes (or at distance 0: "does not block traversal
+//            from the starting element at distance 0"), else Stop;
+//            NotBeyond: Stop if the condition passes, else Continue
+//   fold   : And / Or truth table for the kind, && / || for the value.
+// =============================================================================
+
+use crate::query::query_condition::verif_h::C15_AND;
+use crate::query::query_condition::verif_h::C15_C;
+use crate::query::query_condition::verif_h::C15_OR;
+use crate::query::query_condition::verif_h::C15_S;
+use crate::query::query_condition::verif_h::c15_count_cmp;
+use crate::query::query_condition::verif_h::c15_kind;
+use crate::query::query_condition::verif_h::c15_val;
+use crate::verif_support::ArrStorage;
+use crate::verif_support::ok;
+
+fn c15e_reference(index: i64, distance: u64, conditions: &[QueryCondition]) -> (u8, bool) {
+    let mut kind = C15_C;
+    let mut value = true;
+    let mut i = 0;
+    while i < conditions.len() {
+        let c = &conditions[i];
+        let (bk, bv) = match &c.data {
+            QueryConditionData::Distance(cmp) => {
+                let x = cmp.compare_distance(distance);
+                (c15_kind(&x), c15_val(&x))
+            }
+            QueryConditionData::Edge => (C15_C, index < 0),
+            QueryConditionData::Node => (C15_C, 0 < index),
+            QueryConditionData::Where(inner) => c15e_reference(index, distance, inner),
+            _ => panic!("condition kind outside the harness"),
+        };
+        // (control kind contributed, value contributed; None = running value kept)
+        let (ck, cv): (u8, Option<bool>) = match c.modifier {
+            QueryConditionModifier::None => (bk, Some(bv)),
+            QueryConditionModifier::Not => (bk, Some(!bv)),
+            QueryConditionModifier::Beyond => {
+                (if bv || distance == 0 { C15_C } else { C15_S }, None)
+            }
+            QueryConditionModifier::NotBeyond => (if bv { C15_S } else { C15_C }, None),
+        };
+        match c.logic {
+            QueryConditionLogic::And => {
+                kind = C15_AND[kind as usize][ck as usize];
+                if let Some(v) = cv {
+                    value = value && v;
+                }
+            }
+            QueryConditionLogic::Or => {
+                kind = C15_OR[kind as usize][ck as usize];
+                if let Some(v) = cv {
+                    value = value || v;
+                }
+            }
+        }
+        i += 1;
+    }
+    (kind, value)
+}
+
+// kind: 0 Distance, 1 Edge, 2 Node
+fn c15e_leaf_data(kind: u8, op: u8, n: u64) -> QueryConditionData {
+    match kind {
+        0 => QueryConditionData::Distance(c15_count_cmp(op, n)),
+        1 => QueryConditionData::Edge,
+        _ => QueryConditionData::Node,
+    }
+}
+
+fn c15e_any_logic() -> QueryConditionLogic {
+    if kani::any() {
+        QueryConditionLogic::And
+    } else {
+        QueryConditionLogic::Or
+    }
+}
+
+fn c15e_any_modifier() -> QueryConditionModifier {
+    let m: u8 = kani::any();
+    kani::assume(m < 4);
+    match m {
+        0 => QueryConditionModifier::None,
+        1 => QueryConditionModifier::Beyond,
+        2 => QueryConditionModifier::Not,
+        _ => QueryConditionModifier::NotBeyond,
+    }
+}
+
+// `kind` (0 Distance, 1 Edge, 2 Node) must be CONCRETE: with a symbolic
+// condition kind CBMC executes every arm of `evaluate_condition`, i.e. the ones
+// that read the (uninitialised) database.
+fn c15e_any_leaf(kind: u8) -> QueryCondition {
+    let op: u8 = kani::any();
+    kani::assume(op < 6);
+    QueryCondition {
+        logic: c15e_any_logic(),
+        modifier: c15e_any_modifier(),
+        data: c15e_leaf_data(kind, op, kani::any()),
+    }
+}
+
+// One list of `n` (concrete) leaf conditions of the given concrete kinds;
+// everything else symbolic.
+fn c15e_flat_body(n: usize, kinds: [u8; 3]) {
+    let mem = std::mem::MaybeUninit::<DbImpl<ArrStorage>>::uninit();
+    let db: &DbImpl<ArrStorage> = unsafe { &*mem.as_ptr() };
+    // a stack array, not a Vec: CBMC keeps the (concrete) condition kind of
+    // values on the stack, but not of values written into heap memory
+    let all = [
+        c15e_any_leaf(kinds[0]),
+        c15e_any_leaf(kinds[1]),
+        c15e_any_leaf(kinds[2]),
+    ];
+    let conditions = &all[..n];
+    let index: i64 = kani::any();
+    let distance: u64 = kani::any();
+
+    let got = ok(db.evaluate_conditions(GraphIndex(index), distance, conditions));
+    let (kind, value) = c15e_reference(index, distance, conditions);
+    assert!(c15_kind(&got) == kind, "control kind differs from the documented fold");
+    assert!(c15_val(&got) == value, "selection value differs from the documented fold");
+
+    let m0 = conditions[0].modifier;
+    if n == 1 && kinds[0] == 2 {
+        kani::cover!(m0 == QueryConditionModifier::Beyond && distance == 0 && index < 0 && c15_kind(&got) == C15_C, "failed Beyond at distance 0 continues");
+        kani::cover!(m0 == QueryConditionModifier::Beyond && distance > 0 && c15_kind(&got) == C15_S && value, "failed Beyond stops, element still selected");
+        kani::cover!(m0 == QueryConditionModifier::NotBeyond && c15_kind(&got) == C15_S && value, "NotBeyond stops and still selects");
+    }
+    if n == 1 && kinds[0] == 0 {
+        kani::cover!(m0 == QueryConditionModifier::Not && c15_kind(&got) == C15_S && value, "Not applied to Stop(false) gives Stop(true)");
+    }
+    if n == 2 && kinds[0] == 0 && kinds[1] == 1 {
+        kani::cover!(conditions[1].logic == QueryConditionLogic::Or && conditions[1].modifier == QueryConditionModifier::None && c15_kind(&got) == C15_C && distance > 5 && !value, "or with a Continue overrides a Stop");
+        kani::cover!(conditions[1].logic == QueryConditionLogic::And && conditions[1].modifier == QueryConditionModifier::Beyond && c15_kind(&got) == C15_S, "and beyond()");
+    }
+    if n == 3 && kinds[0] == 2 && kinds[1] == 0 && kinds[2] == 1 {
+        kani::cover!(conditions[1].logic == QueryConditionLogic::Or && conditions[2].logic == QueryConditionLogic::And && value, "mixed and/or");
+    }
+    std::mem::forget(all);
+}
+
+//@ id=C15 tier=quick timeout=1200 bounds="every list of 1..=3 conditions of kinds Distance(any of 6 comparisons, any u64)/Edge/Node (kind sequences D, E, N, DD, DE, ND, DDD, NDE, END — a Distance leaf alone yields every base control value Continue/Stop x true/false —; the kinds that never read the database: `self` is an uninitialised DbImpl that is never read); modifier None/Not/Beyond/NotBeyond and logic And/Or symbolic per condition; element id any i64, distance any u64" desc="DbImpl::evaluate_conditions folds a flat condition list exactly like the reference evaluator written from the documented truth tables and modifier rules (incl. Beyond at distance 0, Not on a Stop, Beyond/NotBeyond never change the selection value)" kernel="DbImpl::evaluate_conditions,DbImpl::evaluate_condition,SearchControl::and,SearchControl::or,SearchControl::flip" args="--no-assertion-reach-checks"
+#[kani::proof]
+#[kani::stub(std::fmt::format, crate::verif_support::fmt_stub)]
+#[kani::stub(crate::DbError::new, crate::verif_support::dberror_new_stub)]
+#[kani::unwind(5)]
+fn c15_evaluate_conditions_flat_list() {
+    // A Distance leaf alone produces every base control value (Continue/Stop x
+    // true/false), so [D, D, D] exercises every fold transition; the other
+    // triples add Edge / Node (Continue(id < 0) / Continue(0 < id)) at every position.
+    c15e_flat_body(1, [0, 0, 0]);
+    c15e_flat_body(1, [1, 0, 0]);
+    c15e_flat_body(1, [2, 0, 0]);
+    c15e_flat_body(2, [0, 0, 0]);
+    c15e_flat_body(2, [0, 1, 0]);
+    c15e_flat_body(2, [2, 0, 0]);
+    c15e_flat_body(3, [0, 0, 0]);
+    c15e_flat_body(3, [2, 0, 1]);
+    c15e_flat_body(3, [1, 2, 0]);
+    kani::cover!(true, "end of harness reachable");
+}
+
+// A `Where` whose inner list lives in a stack array: the Vec handed to the real
+// code is made with `Vec::from_raw_parts` over that array (never dropped, never
+// grown) so that CBMC keeps the concrete condition kinds of the inner leaves
+// (values written to heap memory lose them and every arm of
+// `evaluate_condition`, incl. the ones reading the database, would be executed).
+fn c15e_where(storage: &mut [QueryCondition; 2], inner_len: usize) -> QueryCondition {
+    let inner: Vec<QueryCondition> =
+        unsafe { Vec::from_raw_parts(storage.as_mut_ptr(), inner_len, 2) };
+    QueryCondition {
+        logic: c15e_any_logic(),
+        modifier: c15e_any_modifier(),
+        data: QueryConditionData::Where(inner),
+    }
+}
+
+// list = [Where(k0[, k1])] or [Where(..), leaf] or [leaf, Where(..)]; kinds and
+// order concrete
+fn c15e_nested_body(k0: u8, k1: u8, inner_len: usize, other: Option<u8>, where_first: bool) {
+    let mem = std::mem::MaybeUninit::<DbImpl<ArrStorage>>::uninit();
+    let db: &DbImpl<ArrStorage> = unsafe { &*mem.as_ptr() };
+    let mut inner = std::mem::ManuallyDrop::new([c15e_any_leaf(k0), c15e_any_leaf(k1)]);
+    let w = c15e_where(&mut inner, inner_len);
+    let index: i64 = kani::any();
+    let distance: u64 = kani::any();
+    let (got, kind, value, m_where) = match other {
+        None => {
+            let all = std::mem::ManuallyDrop::new([w]);
+            let got = ok(db.evaluate_conditions(GraphIndex(index), distance, &all[..]));
+            let (k, v) = c15e_reference(index, distance, &all[..]);
+            (got, k, v, all[0].modifier)
+        }
+        Some(k) => {
+            let leaf = c15e_any_leaf(k);
+            let m = w.modifier;
+            let all = std::mem::ManuallyDrop::new(if where_first { [w, leaf] } else { [leaf, w] });
+            let got = ok(db.evaluate_conditions(GraphIndex(index), distance, &all[..]));
+            let (k, v) = c15e_reference(index, distance, &all[..]);
+            (got, k, v, m)
+        }
+    };
+    assert!(c15_kind(&got) == kind, "control kind differs from the documented fold (nested)");
+    assert!(c15_val(&got) == value, "selection value differs from the documented fold (nested)");
+
+    if other.is_none() && k0 == 0 && inner_len == 1 {
+        kani::cover!(m_where == QueryConditionModifier::Not && c15_kind(&got) == C15_S && value, "Not on a nested Where that stops");
+        kani::cover!(m_where == QueryConditionModifier::Beyond && c15_kind(&got) == C15_S && value && distance > 0, "Beyond on a failing nested Where stops but keeps the selection");
+        kani::cover!(m_where == QueryConditionModifier::None && c15_kind(&got) == C15_S, "Stop propagates out of a nested Where");
+    }
+    if other == Some(1) && k0 == 0 && inner_len == 2 && where_first {
+        kani::cover!(where_first && c15_kind(&got) == C15_C && !value && distance > 3, "a later or-ed leaf turns the Where's Stop into Continue");
+    }
+}
+
+//@ id=C15 tier=quick timeout=1200 bounds="a nested Where of 1..=2 leaves alone, or together with one further leaf before or after it; leaf kinds Distance/Edge/Node (concrete loops over the kinds; never read the database: `self` is an uninitialised DbImpl that is never read); all modifiers (also on the Where) and logic symbolic; id any i64, distance any u64" desc="DbImpl::evaluate_conditions with nested Where: the nested list collapses to one control value to which the outer modifier and logic apply, exactly like the reference evaluator written from the documentation" kernel="DbImpl::evaluate_conditions,DbImpl::evaluate_condition" args="--no-assertion-reach-checks"
+#[kani::proof]
+#[kani::stub(std::fmt::format, crate::verif_support::fmt_stub)]
+#[kani::stub(crate::DbError::new, crate::verif_support::dberror_new_stub)]
+#[kani::unwind(5)]
+fn c15_evaluate_conditions_nested_where() {
+    c15e_nested_body(0, 0, 1, None, true); // where(D)
+    c15e_nested_body(0, 0, 2, None, true); // where(D, D)
+    c15e_nested_body(1, 2, 2, None, true); // where(E, N)
+    c15e_nested_body(0, 0, 1, Some(0), true); // where(D), D
+    c15e_nested_body(0, 0, 1, Some(0), false); // D, where(D)
+    c15e_nested_body(0, 1, 2, Some(1), true); // where(D, E), E
+    c15e_nested_body(2, 0, 2, Some(2), false); // N, where(N, D)
+    kani::cover!(true, "end of harness reachable");
+}
